@@ -167,6 +167,8 @@ def rule_faults():
                                                             "pattern": doc["pattern"] + ["@wrap_k"]})
     f("undefined-macro-inside-first-listed-macro-body", lambda doc: {**copy.deepcopy(doc), "macros": [{"name": "@wrap_f", "pattern": [{"zz": ["%rax", "@undefined_thing"]}]}] + (doc.get("macros") or []),
                                                                      "pattern": ["@wrap_f"] + doc["pattern"]})
+    f("undefined-macro-empty-macro-file", lambda doc: {**{k: v for k, v in copy.deepcopy(doc).items() if k != "macros"},
+                                                       "pattern": [p for p in doc["pattern"] if not (isinstance(p, str) and p.startswith("@"))] + ["@undefined_thing"]})
     f("undefined-macro-no-definitions", lambda doc: {**{k: v for k, v in copy.deepcopy(doc).items() if k != "macros"},
                                                      "pattern": [p for p in doc["pattern"] if not (isinstance(p, str) and p.startswith("@"))] + ["@undefined_thing"]})
     f("macro-name-without-at", lambda doc: {**copy.deepcopy(doc), "macros": (doc.get("macros") or []) + [{"name": "plain", "pattern": "ret"}]})
@@ -376,7 +378,7 @@ def all_jobs(ws, B):
         else:
             for name in ("objdump-absent", "objdump-exit-1", "objdump-killed", "objdump-garbage-exit-2", "subprocess-run-OSError",
                          "input-not-an-object", "objdump-partial-output-then-killed", "objdump-partial-output-then-exit-1",
-                         "objdump-partial-output-then-sigterm"):
+                         "objdump-partial-output-then-sigterm", "input-archive-with-a-rejected-member"):
                 jobs.append((name, bi, "file", None))
         if b["macros"]:
             for name in ("macro-file-missing", "macro-file-is-directory", "macro-file-garbled", "open-failpoint-macro-EACCES"):
@@ -397,6 +399,9 @@ def run_job(ctx, ws, B, job, with_cli):
         except Exception:  # noqa: BLE001
             return
         rule_path = ws.write("fault_rule.yaml", real.dump_rule(doc))
+        if fault == "undefined-macro-empty-macro-file":
+            # macro files ARE given, they just define nothing: the expander runs and has to report the name
+            macros = [ws.write("empty_macros.yaml", "macros: []\n")] + ([ws.write("empty_macros2.yaml", "macros: []\n")] if bi % 2 else [])
     elif kind == "text":
         bad = payload(real.dump_rule(base["doc"]))
         try:
@@ -419,6 +424,24 @@ def run_job(ctx, ws, B, job, with_cli):
             inp = ws.write("bad.s", open(base["input"], "rb").read() + b"\n  401011:\t90 \tnop \xff\xfe\n")
         elif fault == "input-not-an-object":
             inp = ws.write("notobj.bin", b"this is not an object file\n" * 10)
+        elif fault == "input-archive-with-a-rejected-member":
+            # a real `ar` archive: the base object next to a member objdump cannot read; objdump prints the good member and exits 1
+            import shutil
+            ar = shutil.which("ar")
+            if not ar:
+                return
+            good = ws.write("member_ok.o", open(base["input"], "rb").read())
+            junk = ws.write("junk.txt", "this is not an object\n")
+            lib = ws.path("libmixed.a")
+            if os.path.exists(lib):
+                os.remove(lib)
+            if subprocess.run([ar, "rcs", lib, good, junk], capture_output=True).returncode != 0:
+                return
+            chk = subprocess.run(["objdump", "-d", "-M", "att", lib], capture_output=True, text=True)
+            if chk.returncode == 0:
+                ctx.event("objdump_accepts_the_mixed_archive_not_a_fault")
+                return
+            inp = lib
         elif fault.startswith("open-failpoint-"):
             which, err = fault.split("-")[2], fault.split("-")[3]
             target = {"rule": good_rule, "input": inp, "macro": macros[0] if macros else good_rule}[which]
